@@ -28,8 +28,8 @@ QUICK_ITER = ["c16_light_graph_spo", "c16_fast_graph_bc", "c16_fast_dataset_gspo
 def specs(tier):
     cap = 180 if tier == "quick" else 1800
     names = QUICK_ITER if tier == "quick" else list(ITER)
-    hs = [Harness(n, unwind=8, unwindset=[(ITER[n][0], 2, "rec"), (r"(^|[< ])(graph|dataset)::", 2, "rec")], oracle_unwind=True, timeout=cap,
-                  note="3 rows, residual matcher rejects all, recursion bound 2 on the iterator's next()") for n in names]
+    hs = [Harness(n, unwind=8, unwindset=[(ITER[n][0], 1, "rec"), (r"(^|[< ])(graph|dataset)::", 1, "rec")], oracle_unwind=True, timeout=cap,
+                  note="3 rows, residual matcher rejects all, recursion bound 1 on the iterator's next()") for n in names]
     s1 = kprop.KSpec(
         package="sophia_inmem", crate_dir="inmem",
         harness_files={"inmem": [os.path.join(H, "inmem", "vt.rs"), os.path.join(H, "inmem", "c16_iter.rs")]},
@@ -37,7 +37,7 @@ def specs(tier):
         encoded=["sophia_inmem::graph::_iter::{SpoMatchingIterator,BcMatchingIterator}::next",
                  "sophia_inmem::dataset::_iter::{GspoMatchingIterator,BcdMatchingIterator,CdMatchingIterator}::next",
                  "Generic{Light,Fast}{Graph,Dataset}::{insert,triples_matching,quads_matching} (index selection reaching each iterator)"],
-        bounds=["3 rows all rejected by the residual matcher", "per-function recursion bound 2 (--unwindset <next>:2), loops unwind 8",
+        bounds=["3 rows all rejected by the residual matcher", "per-function recursion bound 1 (--unwindset <next>:1: one re-entry tolerated, a second one violates), loops unwind 8",
                 "verdict = CBMC recursion unwinding assertion of each next()"],
         outside=["the stack itself (CBMC has no stack model): exercised by the native replay with 10^6 rows on a 2 MiB thread",
                  "graph_rec (SPARQL), populate_list/mark_list_node (JSON-LD), Turtle list output"],
@@ -46,11 +46,11 @@ def specs(tier):
     s2 = kprop.KSpec(
         package="sophia_turtle", crate_dir="turtle",
         harness_files={"turtle": [os.path.join(H, "turtle", "c03_common.rs"), os.path.join(H, "turtle", "c03_escape.rs")]},
-        harnesses=[Harness("c16_quoted_string_rec", unwind=8, unwindset=[(QS["c16_quoted_string_rec"][0], 2, "rec"), (r"serializer::nt::", 2, "rec")],
-                           oracle_unwind=True, timeout=cap, note="4 symbolic bytes (valid UTF-8), recursion bound 2 on quoted_string")],
+        harnesses=[Harness("c16_quoted_string_rec", unwind=8, unwindset=[(QS["c16_quoted_string_rec"][0], 1, "rec"), (r"serializer::nt::", 1, "rec")],
+                           oracle_unwind=True, timeout=cap, note="4 symbolic bytes (valid UTF-8), recursion bound 1 on quoted_string")],
         jobs=2,
         encoded=["sophia_turtle::serializer::nt::quoted_string"],
-        bounds=["4 symbolic bytes of valid UTF-8, per-function recursion bound 2"],
+        bounds=["4 symbolic bytes of valid UTF-8, per-function recursion bound 1"],
     )
     return [s1, s2]
 
@@ -79,12 +79,24 @@ def run(ctx):
         n = 1000000
         for s, h in sorted(scen.items()):
             outcome = {}
-            for prof in ("dev", "release"):
-                rc, out = rep.run(prof, ["c16", s, str(n)], timeout=900)
-                outcome[prof] = rc
+            # which position's rejection makes the function recurse is not known: try every residual position
+            if s == "nt_quoted_string":
+                variants = [s]
+            elif s.endswith("_spo"):
+                variants = [s + ":" + p for p in "spo"]
+            elif s.endswith("_bc") or s.endswith("_cd"):
+                variants = [s + ":" + p for p in "po"]
+            elif s.endswith("_gspo"):
+                variants = [s + ":" + p for p in "gspo"]
+            else:
+                variants = [s + ":" + p for p in "spo"]
+            for v in variants:
+                for prof in ("dev", "release"):
+                    rc, out = rep.run(prof, ["c16", v, str(n)], timeout=900)
+                    outcome["%s/%s" % (v, prof)] = rc
             crashed = [p for p, rc in outcome.items() if rc is not None and (rc < 0 or rc >= 128)]
-            ctx.coverage["traces_validated_against_impl"] = ctx.coverage.get("traces_validated_against_impl", 0) + 2
-            wit = {"property": "C16", "harness": h, "scenario": s, "n": n, "exit_status": outcome,
+            ctx.coverage["traces_validated_against_impl"] = ctx.coverage.get("traces_validated_against_impl", 0) + len(outcome)
+            wit = {"property": "C16", "harness": h, "scenario": s, "n": n, "exit_status": outcome, "crashed_variants": crashed,
                    "kind": "unbounded-recursion", "what": "recursion unwinding assertion failed for bound 2; native run with 10^6 elements on a 2 MiB stack"}
             wp = ctx.write_witness(s, wit)
             log("[C16] native replay %s n=%d: %s" % (s, n, outcome))
@@ -93,7 +105,7 @@ def run(ctx):
                 if key in open_keys:
                     ctx.known("%s [%s]" % (open_keys[key]["what"], key))
                 else:
-                    ctx.violation(wp, "%s: recursion per element (CBMC recursion unwinding assertion) and stack overflow with %d elements on a 2 MiB stack in %s build" % (s, n, "/".join(crashed)))
+                    ctx.violation(wp, "%s: recursion per element (CBMC recursion unwinding assertion) and stack overflow with %d elements on a 2 MiB stack in %s build" % (s, n, ", ".join(crashed)))
             else:
                 ctx.inconc("%s: recursion unwinding assertion failed but 10^6 elements did not overflow a 2 MiB stack (%s)" % (s, outcome))
     finally:
@@ -107,10 +119,12 @@ def replay(ctx, path):
     try:
         bad = []
         for prof in ("dev", "release"):
-            rc, out = rep.run(prof, ["c16", w["scenario"], str(w.get("n", 1000000))], timeout=900)
-            log("%s: exit %s" % (prof, rc))
-            if rc is not None and (rc < 0 or rc >= 128):
-                bad.append(prof)
+            for v in (w.get("crashed_variants") or [w["scenario"]]):
+                v = v.split("/")[0]
+                rc, out = rep.run(prof, ["c16", v, str(w.get("n", 1000000))], timeout=900)
+                log("%s %s: exit %s" % (v, prof, rc))
+                if rc is not None and (rc < 0 or rc >= 128):
+                    bad.append(prof)
         if bad:
             log("VIOLATION property=C16 replay=%s" % path)
             return 1
